@@ -59,15 +59,20 @@ def _compiled_polynomial(ctx, model):
         kernels.EXPONENT_SHAPES
     wit = kernels.horner_text_rule(mem.node, consts, shapes=hshapes,
                                    class_node=mem.owner.node)
-    ctx.ob("P/CompileMapper.map_polynomial/text-value", not wit,
-           mem.owner.module.loc(mem.node),
-           "the generated text denotes sum coeff * base**exp on "
-           f"{len(hshapes)} exponent shapes" if not wit else
-           "the text generated for a Polynomial does not denote sum coeff * "
-           "base**exp: " + "; ".join(
-               f"exponents {e} (enclosing precedence {p_}): '{got}' instead of "
-               f"{want}" for e, p_, got, want in wit[:3]),
-           {"shapes": [list(e) for e in hshapes]})
+    for pb, key, what in ((False, "P/CompileMapper.map_polynomial/text-value",
+                           "an atom"),
+                          (True, "P/CompileMapper.map_polynomial/text-value/"
+                           "power-base", "itself a power")):
+        w_ = [w for w in wit if w[4] == pb]
+        ctx.ob(key, not w_, mem.owner.module.loc(mem.node),
+               f"the generated text (base {what}) denotes sum coeff * base**exp "
+               f"on {len(hshapes)} exponent shapes, also as an operand of * and "
+               "**" if not w_ else
+               f"the text generated for a Polynomial (base {what}) does not "
+               "denote sum coeff * base**exp: " + "; ".join(
+                   f"exponents {e} (enclosing precedence {p_}): '{got}' instead "
+                   f"of {want}" for e, p_, got, want, _ in w_[:3]),
+               {"shapes": [list(e) for e in hshapes]})
 
 
 # ---------------------------------------------------------------------------
